@@ -7,6 +7,7 @@ mod c18;
 mod frag;
 mod gen;
 mod interp;
+mod props;
 mod runner;
 mod util;
 mod words;
@@ -27,6 +28,11 @@ fn main() {
         "render-all" => words::render_all(rest),
         "interp-ops" => interp::ops(rest),
         "c03-spec" => frag::spec(rest),
+        "c06-spec" => props::c06(rest),
+        "c07-spec" => props::c07(rest),
+        "c08-spec" => props::c08(rest),
+        "c12-spec" => props::c12(rest),
+        "c14-spec" => props::c14(rest),
         "runner" => runner::main(rest),
         "gen-stats" => runner::gen_stats(rest),
         _ => { eprintln!("unknown command {cmd:?}"); 2 }
